@@ -11,7 +11,10 @@
 //	            moved, stop of a group that is ahead, a group moved by SetConsumedSeq/SetAppendedSeq while its
 //	            consumer is parked inside Consume) followed by a seeded random tail;
 //	(big)       histories with 40-60 MiB messages so that data pages roll over and GC really removes page files;
-//	(indexroll) one history over more than 262144 messages so that GC removes an index page;
+//	(indexroll) histories over more than 262144 messages so that GC removes an index page, followed by explicit index
+//	            resets (SetAppendedSeq) backwards and forwards across the index page boundary - with the first index
+//	            page still present (odd indexes) and after GC removed it (all) - each followed by appends, consume
+//	            with read-back, Sync + GC, reopen and a replay of the unacknowledged messages;
 //	(conc)      concurrent runs: producer, consumer + acker (or one consume/ack/rewind loop) per group, a
 //	            Sync/GC ticker and a create/stop-group churner; half of them under the race detector.
 package main
@@ -88,7 +91,7 @@ func main() {
 	c := core.New("C06", "exploration")
 	c.SetRule("cases: (seq) one seeded sequential history of 30-200 operations over a FanOutQueue with 1-3 consumer groups; " +
 		"(directed) one scripted prefix (stop-group/sync/reopen, stop-group/sync/re-create, late group creation, stop of a group that is ahead, SetConsumedSeq or SetAppendedSeq from another goroutine while the consumer is parked inside Consume, creation of a group overlapped by ack+Sync+GC of another group at the new group's first meta page store) plus a random tail; " +
-		"(big) one history with 40-60 MiB messages and interleaved acks/sync/gc/reopen; (indexroll) one history over >262144 messages; " +
+		"(big) one history with 40-60 MiB messages and interleaved acks/sync/gc/reopen; (indexroll) one history over >262144 messages (index and data page roll-over, lagging group, GC of the first pages) continued by explicit index resets backwards/forwards across the index page boundary (first index page present: odd indexes; removed by GC: all), each followed by appends, consume with read-back, Sync+GC, reopen, replay; " +
 		"(conc) one concurrent run of producer, consumer(s), acker(s), Sync/GC ticker and group churner. " +
 		"Non-trivial = sequential history in which a stop-group or a reopen was followed by a Sync that the history then observed " +
 		"(distinct by the hash of its operation sequence), big/indexroll history in which GC removed at least one page file, " +
@@ -112,7 +115,7 @@ func main() {
 	for i := 0; i < nBig; i++ {
 		jobs = append(jobs, job{kind: "big", start: i, count: 1})
 	}
-	nRoll := c.Pick(1, 3)
+	nRoll := c.Pick(2, 4)
 	for i := 0; i < nRoll; i++ {
 		jobs = append(jobs, job{kind: "indexroll", start: i, count: 1})
 	}
@@ -229,7 +232,12 @@ func main() {
 	for _, need := range []string{"op.consume", "op.ack.valid", "op.ack.stale", "op.ack.future", "op.sync", "op.gc", "op.reopen",
 		"op.stop-group", "op.create-group", "op.set-consumed.in-range", "op.set-consumed.out-of-range", "op.set-appended",
 		"op.create-while-sync", "conc.created_group_consumed", "op.consume-wait.put", "op.consume-wait.set-consumed", "op.consume-wait.set-appended", "consumer_parked_in_consume_before_action",
-		"queue_ack_moves_observed", "gc_data_pages_removed", "conc.consumed", "conc.acks.valid"} {
+		"queue_ack_moves_observed", "gc_data_pages_removed", "conc.consumed", "conc.acks.valid",
+		// index resets across an index page boundary (indexroll histories)
+		"gc_index_pages_removed", "index_reset.backward_onto_earlier_index_page.page_present", "index_reset.backward_onto_earlier_index_page.page_removed_by_gc",
+		"index_reset.forward_onto_later_index_page", "appends_after_backward_index_reset_across_index_page.same_process",
+		"appends_after_backward_index_reset_across_index_page.after_reopen", "appends_rolled_forward_again_after_backward_index_reset",
+		"read_back.appended_after_backward_index_reset", "read_back.appended_after_backward_index_reset.after_reopen"} {
 		if c.Counter(need) == 0 {
 			c.Inconclusive("no event of kind %q was observed", need)
 		}
